@@ -528,7 +528,11 @@ func (v *Visitor) Visit(s *df.AnalyzerState, source df.NodeWithTrace) {
 						que = v.addNext(s, que, cur, nil, nextNodeWithTrace, cur.Status, edgeInfo)
 					}
 				}
-			} else if cur.ClosureTrace != nil {
+			} else if cur.ClosureTrace != nil && cur.Trace != nil &&
+				cur.ClosureTrace.Label.ClosureSummary == graphNode.Graph() {
+				// The traces give the context only when there is a call stack (it is reset when data goes through a
+				// global) and the last closure of the closure trace is the one the free variable belongs to (data
+				// may have gone through another closure before). Otherwise, there is no context: this is the last case.
 				bvs := cur.ClosureTrace.Label.BoundVars()
 				if len(bvs) == 0 {
 					panic("no bound vars")
